@@ -5,6 +5,7 @@ import (
 	"os"
 	"path/filepath"
 	"reflect"
+	"strconv"
 	"time"
 
 	"github.com/goccy/go-yaml"
@@ -93,7 +94,14 @@ func (c *Config) SaveAsYaml() error {
 	// process structs fields and comments
 	processFields(reflect.TypeOf(Config{}), "")
 
-	data, err := yaml.MarshalWithOptions(c, yaml.WithComment(yamlCommentMap))
+	// Write every string as a double-quoted scalar. Left to itself the encoder emits plain
+	// scalars such as 1e3, .inf, ? or a value with a leading tab, which the YAML reader used by
+	// Load resolves to a number, rejects, or trims, so the file would not load back as written.
+	quoteStrings := yaml.CustomMarshaler[string](func(s string) ([]byte, error) {
+		return []byte(strconv.Quote(s)), nil
+	})
+
+	data, err := yaml.MarshalWithOptions(c, yaml.WithComment(yamlCommentMap), quoteStrings)
 	if err != nil {
 		return fmt.Errorf("error marshaling YAML data: %w", err)
 	}
